@@ -360,7 +360,7 @@ where
     F: Fn(Vec<u16>) -> (String, Vec<u16>),
 {
     use crate::sched::WILDCARD;
-    let mut budget = 260i32;
+    let mut budget = 400i32;
     let mut _best_concrete: Vec<u16> = trace.to_vec();
     let try_run = |cand: &Vec<u16>, budget: &mut i32| -> Option<Vec<u16>> {
         *budget -= 1;
